@@ -8,3 +8,5 @@ import VibeProof.Props.C31
 #print axioms VibeProof.C31.C31_unvalidated_key_injects
 #print axioms VibeProof.C31.C31_validated_name_inert
 #print axioms VibeProof.C31.C31_export_import_counterexample
+#print axioms VibeProof.C31.C31_header_agreement
+#print axioms VibeProof.C31.C31_quoted_header_spans_lines
